@@ -46,7 +46,16 @@ where
             let sym = symtab.get(*strref).unwrap();
             let value = match sym.inner() {
                 Symbol::Value(value) => *value,
-                Symbol::Expr(expr) => expr.evaluate(symtab, &str_interner).unwrap(),
+                Symbol::Expr(expr) => match expr.evaluate(symtab, str_interner) {
+                    Some(value) => value,
+                    None => {
+                        let interner = str_interner.as_ref().borrow();
+                        let name = interner.get(*strref).unwrap();
+                        return Err(DebugExporterError::new(format!(
+                            "The value of \"{name}\" could not be solved"
+                        )));
+                    }
+                },
             };
             let meta = symtab.meta_interner().get(sym.meta()).unwrap();
 
